@@ -52,6 +52,7 @@ var writeCallees = map[string]int{ // callee -> index of the target argument (re
 	"(*os.File).Write": 0, "(*os.File).WriteString": 0, "(*os.File).WriteAt": 0, "(*os.File).ReadFrom": 0,
 	"fmt.Fprintf": 0, "fmt.Fprint": 0, "fmt.Fprintln": 0, "io.WriteString": 0, "io.Copy": 0,
 	"(*bufio.Writer).Write": 0, "(*bufio.Writer).WriteString": 0, "(*bufio.Writer).Flush": 0,
+	"invoke:io.StringWriter.WriteString": 0, "invoke:io.Writer.Write": 0, "invoke:io.ByteWriter.WriteByte": 0,
 }
 
 func (r *Run) viewSave() *saveView {
@@ -494,16 +495,30 @@ func ruleC06R3(r *Run) {
 	if save == nil || load == nil {
 		return
 	}
-	// comment prefix
+	// comment prefix: the leading literal of what is written per output line (inside the loop over the output lines)
 	prefix := ""
-	for _, cs := range p.callsTo(save, "(*os.File).WriteString") {
-		if bo, ok := p.resolve(cs.Arg(0)).(*ssa.BinOp); ok && bo.Op == token.ADD {
-			if b2, ok := p.resolve(bo.X).(*ssa.BinOp); ok && b2.Op == token.ADD {
-				prefix, _ = constString(p.resolve(b2.X))
-				nl, _ := constString(p.resolve(bo.Y))
-				r.Check("saveFailFile#comment-line", cs.Instr.Pos(), strings.HasPrefix(prefix, "#") && nl == "\n", fmt.Sprintf("comment lines are written as %q + line + %q", prefix, nl), fmt.Sprintf("comment lines are written with prefix %q and terminator %q", prefix, nl))
-			}
+	for _, cs := range p.calls(save) {
+		if _, isW := writeCallees[cs.Key]; !isW {
+			continue
 		}
+		if innermostLoop(cs.Instr) == nil {
+			continue
+		}
+		var data ssa.Value
+		switch {
+		case strings.HasPrefix(cs.Key, "fmt.Fprint"):
+			data = cs.Common.Args[1]
+		default:
+			data = cs.Arg(0)
+		}
+		lead, ok := p.leadingLiteral(data, 0)
+		if !ok {
+			continue
+		}
+		prefix = lead
+		full := p.expr(data)
+		nlOK := strings.HasSuffix(full, `+ "\n")`) || strings.HasSuffix(lead, "\n") || strings.Contains(full, `\n"`)
+		r.Check("saveFailFile#comment-line", cs.Instr.Pos(), strings.HasPrefix(prefix, "#") && nlOK, fmt.Sprintf("comment lines are written with prefix %q and end in a newline", prefix), fmt.Sprintf("comment lines are written with prefix %q (terminator present: %v)", prefix, nlOK))
 	}
 	okSkip := false
 	for _, cs := range p.callsTo(load, "strings.HasPrefix") {
@@ -820,7 +835,8 @@ func ruleC17R1(r *Run) {
 			}
 			seen[b] = true
 			if ret, ok := b.Instrs[len(b.Instrs)-1].(*ssa.Return); ok {
-				if isNilConst(p.resolve(p.res(ret, errIdx))) {
+				ei := len(ret.Results) - 1
+				if ei < 0 || !isErrorType(ret.Parent().Signature.Results().At(ei).Type()) || isNilConst(p.resolve(p.res(ret, ei))) {
 					okAll = false
 				}
 			}
@@ -842,7 +858,7 @@ func ruleC17R1(r *Run) {
 	r.Floor("error-returning calls in loadFailFile", n, 4)
 	// constant index / slice expressions
 	ni := 0
-	for _, b := range fn.Blocks {
+	for _, b := range p.body(fn) {
 		for _, in := range b.Instrs {
 			var base ssa.Value
 			var k int64
@@ -900,7 +916,7 @@ func ruleC17R1(r *Run) {
 	// no panic / assert
 	bad := 0
 	for f := range p.closureOf([]*ssa.Function{fn}) {
-		for _, b := range f.Blocks {
+		for _, b := range p.body(f) {
 			for _, in := range b.Instrs {
 				if _, ok := in.(*ssa.Panic); ok {
 					bad++
